@@ -174,6 +174,7 @@ impl Property for C05 {
                 _ => Some(rng.range(1, 500_000) as u64),
             },
             cost_models: vec![0, 1, 2],
+            cost_salt: 0,
         };
         ctx.count(match pp.extra_fees {
             None => "margin/none",
